@@ -235,6 +235,10 @@ def decode(input, errors="strict", encoding=None, force=True):
         ) or encoding is None:  # Take the encoding from the input
             encoding = _encoding
 
+    elif input.startswith(codecs.BOM_UTF8) and codecs.lookup(encoding).name == 'utf-8':
+        # a forced UTF-8 must not turn the byte order mark into content
+        encoding = 'utf-8-sig'
+
     # NEEDS: change in parse.py (str to bytes!)
     (input, consumed) = codecs.getdecoder(encoding)(input, errors)
     return (_fixencoding(input, str(encoding), True), consumed)
